@@ -215,11 +215,11 @@ fn find_missing_module(
   path: &[LyStr],
   index: usize,
 ) -> (Ref<Module>, (&[LyStr], &[LyStr])) {
-  if path.is_empty() {
-    return (module, (&[], &[]));
+  if index >= path.len() {
+    return (module, path.split_at(path.len()));
   }
 
-  match module.get_module(path[0]) {
+  match module.get_module(path[index]) {
     Some(module) => find_missing_module(module, path, index + 1),
     None => (module, path.split_at(index)),
   }
